@@ -188,7 +188,7 @@ theorem tm_compileStmt (env : CEnv) :
       exact (TmpsIn_mkSeq (ht.2.mono (Nat.le_refl _) he.1)).append (TmpsIn_mkSeq (he.2.mono h01 (Nat.le_refl _)))
   | .for_ v c step b, st, eff, st', hf, h => by
       simp only [HybFreeS, Bool.and_eq_true, Bool.not_eq_eq_eq_not, Bool.not_true] at hf
-      obtain ⟨⟨hv, hfc⟩, hfb⟩ := hf
+      obtain ⟨⟨⟨hv, hfc⟩, hfb⟩, _⟩ := hf
       simp only [compileStmt] at h
       obtain ⟨cc, hcc, h⟩ := bind_ok h
       have hc := nt_condIL env.cfg cc (nt_compileExpr env c hfc hcc)
